@@ -46,6 +46,7 @@ LEVEL["decided"] += " R20.5 also: a tool without a documented window never hands
 LEVEL["decided"] += ' (R20.9) a container a streaming tool creates is not filled by a library helper / closure it is handed to.'
 LEVEL["technique"] += '; evaluated tee construction (heap reachability of the buffers)'
 LEVEL["decided"] += " R20.1 also reads private generators that a streaming tool iterates, plain loops over a user's synchronous iterable, and await_each / any_iter; a deque created with a literal maxlen is a window; replacing an element of a list is not growth."
+LEVEL["decided"] += ' (R20.10) no streaming tool re-binds its iterator to a wrapper around itself once per round; R20.5 also covers itertools.tee / itertools.cycle of the standard library.'
 
 STREAMING = c01.PASS_THROUGH + c01.TRANSFORMING + [
     "builtins.all", "builtins.any", "builtins.sum", "builtins._min_max", "functools.reduce", "heapq._largest",
